@@ -15,6 +15,9 @@ Open Scope Z_scope.
    Spec.in_class: any field count, order and nesting depth; bit-fields of any integer type,
    widths 0..8*size; unions; anonymous members; trailing flexible array; pack = 0 or a power
    of two with no bit-field in a packed aggregate) is accepted — zero-size aggregates too. *)
+(* (in_class bounds a bit-field's width by 8*size of its declared type; for _Bool, modelled as a
+   1-byte type, that admits widths 2..8, which gcc refuses and which are therefore outside the
+   property's class: the theorems quantify over a superset of it.) *)
 Theorem C01_total : forall t, in_class t -> exists ti, cffi_layout t = Ok ti.
 Proof. intros t H. destruct (layout_total t H) as (ti & E & _). eauto. Qed.
 Print Assumptions C01_total.
